@@ -13,11 +13,13 @@ import contracts.builders_eam as BE
 import contracts.rawparser as RPc
 import contracts.registry as RGc
 import contracts.tableform_dups as TDc
+import contracts.overrides as OVc
 import contracts.potable_cli as CLIc
 FUNCTIONS = [(F_CP, 'ConfigParser._pair_species_func'), (F_CP, 'ConfigParser._check_for_duplicate_pairs'), (F_EB, 'EAM_Potential_Builder_FS._density_to_potential_form_dict'),
              (F_CP, '_RawConfigParser.has_option'),
              (F_REG, 'Potential_Form_Registry._build_table_forms'), (F_REG, 'Potential_Form_Registry._build_potential_forms'),
-             (F_CP, '_TableFormSection.check_for_duplicate_table_forms'), (F_CP, 'ConfigParser.__init__')]     # additions are tested with has_option(): own keys compared by normal form
+             (F_CP, '_TableFormSection.check_for_duplicate_table_forms'), (F_CP, 'ConfigParser.__init__'),
+             (F_CP, 'ConfigParser._init_config_parser')]      # an addition is accepted only if the item is not there when it is applied -- earlier additions included (contracts/overrides.py)     # additions are tested with has_option(): own keys compared by normal form
 
 def _count_lemmas():
     import contracts.tableform_dups as TD
